@@ -111,6 +111,8 @@ def gen(c):
                     "sig": (i2b(r % 2 ** 256) + i2b(s % 2 ** 256)) if iface == "do" else sigbytes}
             if iface == "ctx":
                 line["chunks"] = ",".join(map(str, [rng.randrange(0, len(ctx_msg) + 1)]))
+                if len(lines) % 3 == 0:          # every third context case: the context has absorbed something else before and was reset
+                    line["prejunk"] = rb(1 + len(lines) % 70)
             case = {"kind": "verify", "what": "verify:%s:%s" % (iface, what), "iface": iface, "eqholds": eq, "sig": list(sigbytes or b""),
                     "r": list(i2b(r % 2 ** 256)), "s": list(i2b(s % 2 ** 256)), "eref": list(ee), "idb": list(ctx_id), "px": list(i2b(pubkey[0])), "py": list(i2b(pubkey[1])),
                     "msg": list(ctx_msg), "T": tt.json() if iface == "ctx" else []}
